@@ -1,7 +1,7 @@
 """C02 - Fq/Fr arithmetic exact and canonical (partial claim: constants + zero special cases)."""
 from .. import guards, consts, nowrap, fieldlayer, asmsem
 
-EXPL = ('(R-WORDALG) word-level algebraic value numbering of the x86-64 (baseline and BMI2/ADX) and AArch64 routines: every register/memory word is an integer polynomial over input words and fresh atoms tied by the instruction identities (x+y+c = v + 2^64 c\', x*y = lo + 2^64 hi); at every ret the stored words, expanded to normal form, equal the specification polynomial (a+b with returned carry, a-b with returned borrow, 2a, a*b, a*a, 2^384 V = T + U p with quotient words cancelling the low half); dropped or re-weighted carries are proven zero by an interval argument over the same identities; on each path of a compare-and-correct tail the branch facts (carry of the addition chain, borrow of a same-index subtraction chain, lexicographic same-index word comparisons) must DETERMINE whether the value reaches the modulus and the path must implement that case. (R-FIELDLAYER) the representation `val` of a field element is written only by 12 field primitives whose canonical-result obligation is decided, or by read-then-hash_reduce. Partial claim. Exactness of add/sub/mul/Montgomery reduction for all operands (including the 2^-64-probability '
+EXPL = ('(R-WORDALG/c++) the same word-level algebra with the resolved AST as front end decides the PORTABLE layer in all five configurations (64- and 32-bit words): a BigInt is byte-addressed memory of word cells shared by its union views; unsigned arithmetic in a C type is exact arithmetic plus one wrap (carry / borrow atom); shifts and truncations split values into lo + 2^s hi atoms; loops are unrolled; the carry idiom `carry = (sum < addend)` / `(sum <= addend)` is DECIDED by evaluating the comparison for every value of the carry atoms it involves (newest-first expansion, interval arithmetic), not pattern-matched, and the two arms of `if (carry == 0)` are merged when they leave identical states; BigInt::compare is verified against its lexicographic meaning and summarised at its call sites by a three-way fork with a fact about the two big values, from which the FpBase correction branches are decided; Montgomery reduction is checked as 2^bits V + cancelled words = T + U p. (R-LANES) write/read_big_endian and reverse_endianness move byte lanes exactly as the byte reversal requires. (R-WORDALG) word-level algebraic value numbering of the x86-64 (baseline and BMI2/ADX) and AArch64 routines: every register/memory word is an integer polynomial over input words and fresh atoms tied by the instruction identities (x+y+c = v + 2^64 c\', x*y = lo + 2^64 hi); at every ret the stored words, expanded to normal form, equal the specification polynomial (a+b with returned carry, a-b with returned borrow, 2a, a*b, a*a, 2^384 V = T + U p with quotient words cancelling the low half); dropped or re-weighted carries are proven zero by an interval argument over the same identities; on each path of a compare-and-correct tail the branch facts (carry of the addition chain, borrow of a same-index subtraction chain, lexicographic same-index word comparisons) must DETERMINE whether the value reaches the modulus and the path must implement that case. (R-FIELDLAYER) the representation `val` of a field element is written only by 12 field primitives whose canonical-result obligation is decided, or by read-then-hash_reduce. Partial claim. Exactness of add/sub/mul/Montgomery reduction for all operands (including the 2^-64-probability '
         'carry tails) is value-level and NOT decided. Decided: (R-CONST) every constant the arithmetic depends on has '
         'the value its role requires, derived from x alone by independent big-integer arithmetic: moduli q and r '
         '(located as the template arguments of the field types), R = 2^bits mod p, R2 = R^2 mod p, the *used* word of '
@@ -20,7 +20,7 @@ EXPL = ('(R-WORDALG) word-level algebraic value numbering of the x86-64 (baselin
 def run(ctx):
     ctx.explanation = EXPL
     ctx.level = 'other'
-    ctx.assumptions = ['the curve parameter x (with its sign) is the trusted root; preconditions of the assembly specifications (canonical operands, inv*p[0] = -1 mod 2^64, T < p*2^384) are stated, not derived; the portable C++ multiply/reduce is decided only up to carries and correction branches; ARMv6-M assembly is not analysable']
+    ctx.assumptions = ['the curve parameter x (with its sign) is the trusted root; preconditions of the assembly specifications (canonical operands, inv*p[0] = -1 mod 2^64, T < p*2^384) are stated, not derived; inversion, exponentiation, square root and Legendre symbol are compositions of the decided primitives and are not decided as values; ARMv6-M assembly is not analysable and is summarised by its specification']
     import os
     from .. import buildmodel as bm
     ctx.add_extra_unit(os.path.join(bm.VERIF, 'fixtures', 'instantiate_all.cpp'))
